@@ -4,6 +4,7 @@ from ..core.davsys import Config
 from . import e1common
 
 ASSUME = [
+    "one configuration has two workers: a second application object with its own store cache on the same directory (gunicorn workers = 2 in the repository's examples); every write is offered to either worker, and after every request both workers are audited and must show the same",
     "alphabet: 2 names x 4 bodies per calendar, 1 name x 2 cards, one extra collection, POST add-member, restart",
     "the audit after every transition itself issues PROPFIND/GET on every name (reads are part of every step)",
     "store-API back ends (bare-memory, vdir) are explored by the store-level driver in the same check (see per_config)",
@@ -22,6 +23,10 @@ def configs(tier):
         Config(front="aio", backend="tree", prefix="/dav/", features=feats, props=props, oracles={"C01"}),
         Config(front="wsgi", backend="bare", prefix="/dav/", features=feats, props=props, bodies=rb, oracles={"C01"}),
     ]
+    tw = dict(names={"cal": ["a.ics", "b.ics"], "ab": ["a.vcf"], "c2": []}, bodies={"cal": ["X", "X2"], "ab": ["K"], "c2": []}, props=props, oracles={"C01"})
+    out.append(Config(front="wsgi", backend="tree", prefix="/", features={"two-workers", "restart", "head"}, label="tree/wsgi+two-workers", **tw))
+    if tier == "thorough":
+        out.append(Config(front="wsgi", backend="bare", prefix="/", features={"two-workers", "restart", "head", "recreate"}, label="bare/wsgi+two-workers", **tw))
     out.append(e1common.StoreCfg(kinds=("tree", "bare", "mem", "vdir"), bodies=("X", "X2", "Z", "BAD", "R1", "R2"), oracles={"C01"}, features={"restart", "differential"} | ({"etagargs"} if tier == "thorough" else set())))
     if tier == "thorough":
         out += [
@@ -35,6 +40,8 @@ def run(tier, workers=None):
     def seeds(cfg):
         if isinstance(cfg, e1common.StoreCfg):
             return [[("put", "a.ics", "X", None), ("put", "b.ics", "Z", None), ("delete", "a.ics", None)]]
+        if "two-workers" in cfg.features:
+            return []
         hs = [[("mkcalendar", "c2"), ("put", "c2", "a.ics", "X")], [("put", "cal", "a.ics", "X"), ("put", "cal", "b.ics", "Z"), ("delete", "cal", "a.ics")],
               [("put", "cal", "a.ics", "X"), ("restart",), ("put", "cal", "a.ics", "X2")]]
         if tier == "quick":
